@@ -146,6 +146,10 @@ def one_case(ctx, rng, wd, K=None, mode=None, force_N=None):
             big[:, ::2] = qarr
             qarr = big[:, ::2]
         kwargs = {"qvector": qarr}
+        if rng.random() < 0.4:
+            # the direction option only shapes the DEFAULT set; a supplied list is used as supplied, whatever the option says
+            kwargs["onlypositive"] = [True, "x", "y"][int(rng.integers(0, 3))]
+            ctx.count("explicit_list_with_direction_option")
     save = rng.random() < 0.35
     outfile = os.path.join(wd, "sq_out.csv") if (save or rng.random() < 0.2) else None
     info = lambda: {"d": d, "N": N, "K": Kreal, "L": L, "frames": frames, "mode": mode, "onlypositive": onlypos,  # noqa: E731
@@ -159,7 +163,16 @@ def one_case(ctx, rng, wd, K=None, mode=None, force_N=None):
         if expected_default_set(d, numofq, oth):
             ctx.call(key + "/prior_call", lambda: sq(snaps, qrange=qrange, onlypositive=oth).getresults(), data=info)
             ctx.count("prior_call_other_option")
-    ok, res = ctx.call(key, lambda: sq(snaps, saveqvectors=save, outputfile=outfile, **kwargs).getresults(), data=info)
+    again = bool(rng.random() < 0.3)      # history: the SAME object asked twice (a re-run notebook cell); the second answer is monitored
+
+    def go():
+        obj = sq(snaps, saveqvectors=save, outputfile=outfile, **kwargs)
+        r = obj.getresults()
+        if again:
+            ctx.count("second_call_on_same_object")
+            r = obj.getresults()
+        return r
+    ok, res = ctx.call(key + ("/second_call" if again else ""), go, data=info)
     ctx.case(f"K{Kreal}/{d}D/{mode}/{onlypos}", snaps.snapshots[0].positions, types, L, np.array(nvec),
              nontrivial=N >= 3 and len(nvec) >= 3,
              sample={"N": N, "K": Kreal, "d": d, "L": L, "mode": mode, "onlypositive": onlypos, "n_qvectors": len(nvec),
